@@ -184,6 +184,23 @@ def run(ctx):
     c.ob("R2", bool(brk) and lim_ok, dr, "breaker-compares-with-max-iterations", "the run loop cuts a raise chain longer than max_iterations" if brk and lim_ok else
          "the run loop's raise-chain breaker is missing or not tied to max_iterations", dr.node)
     c.floor("R2", "inline self-enqueue sites in the async macrostep closure", n, 2)
+    # ---- R4 the chain counter is reset only when the chain has ended ----------------------
+    for v in VIEWS:
+        d_ = roles(ctx, v).drain
+        resets = [x for x in own_nodes(d_.node) if isinstance(x, ast.Assign) and isinstance(x.targets[0], ast.Attribute)
+                  and x.targets[0].attr in ("_raise_depth",) and isinstance(x.value, ast.Constant) and x.value.value == 0]
+        for x in resets:
+            atoms = guards_at(d_, x)
+            in_breaker = any("limit" in norm(a) and pol for a, pol in atoms)
+            if in_breaker:
+                c.ob("R4", True, d_, "counter-reset:after-cut", "counter reset after the chain was cut", x, nontrivial=False)
+                continue
+            quiescent = any(("_event_queue" in norm(a) and ("empty" in norm(a) or "qsize" in norm(a) or "not self._event_queue" in norm(a))) for a, pol in atoms)
+            c.ob("R4", quiescent, d_, "counter-reset:mid-chain",
+                 "the chain counter is reset only when nothing is queued (the chain has ended)" if quiescent else
+                 f"'{stmt_text(x)}' resets the chain counter after any macrostep that raised nothing, although later links of the chain are still "
+                 f"queued: a chain in which every link also raises one harmless event (PING -> [raise NOTE, raise PING]) keeps the counter "
+                 f"oscillating below the bound and is never cut", x)
     # ---- R3 the bound must not discard external events (sync) ----------------------------
     sd = roles(ctx, "SyncInterpreter").drain
     for w in attr_writes(sd):
